@@ -26,6 +26,7 @@ META = {
     'assumptions': ['dimension oracle: own expansion of class definitions into exponent vectors',
                     'scale oracle: own walk of unit.definition'],
 }
+META['bounds'].append("user program 'rejected': a duplicate type / unit declaration is rejected, then 6 products / quotients; scalars: inexact floats 0.1, 0.3, 0.7 on decimal and fraction amounts")
 
 
 def setup(mode):
